@@ -69,7 +69,8 @@ pub fn run() {
         let out = match level.as_str() {
             "platform" => platform_case(id, len, nsend, nrecv, nshm, &pat, a.get("rintr").map(|s| s.parse().unwrap()).unwrap_or(0)),
             "bytes" => bytes_case(id, len, &pat),
-            "typed" => typed_case(id, len, nsend, nrecv, nshm, &pat, a.get("prefail").map(|s| s == "1").unwrap_or(false)),
+            "typed" => typed_case(id, len, nsend, nrecv, nshm, &pat, a.get("prefail").map(|s| s == "1").unwrap_or(false),
+                                  a.get("samereg").map(|s| s == "1").unwrap_or(false)),
             _ => json!({"error":"level"}),
         };
         if out["recv"].get("hang").is_some() {
@@ -240,7 +241,9 @@ fn bytes_case(id: u64, len: usize, pat: &str) -> serde_json::Value {
            "send":send_res,"followup_ok":followup,"recv":recv_json})
 }
 
-fn typed_case(id: u64, len: usize, nsend: usize, nrecv: usize, nshm: usize, pat: &str, prefail: bool) -> serde_json::Value {
+fn typed_case(id: u64, len: usize, nsend: usize, nrecv: usize, nshm: usize, pat: &str, prefail: bool, samereg: bool) -> serde_json::Value {
+    // samereg: all regions of the value have byte-identical contents (separately created objects)
+    let region_bytes = move |id: u64, i: usize| region_bytes(id, if samereg { 0 } else { i });
     let data = payload(id, len);
     // an earlier send on this thread whose serialisation failed half-way must not influence the next message
     let mut prefail_res = serde_json::Value::Null;
